@@ -359,6 +359,7 @@ typedef struct {
 } outcome_t;
 
 static vf_errlog elog;
+static int g_tol_order;	/* 1: et tolerance set before the p tolerance */
 
 static void attempt(cs_scenario *sc, const int *unk, int nunk, double ptol,
 	double ettol, int limit, bool weight, outcome_t *o, vf_result *r)
@@ -382,8 +383,9 @@ static void attempt(cs_scenario *sc, const int *unk, int nunk, double ptol,
 	o->rc = -7;
 	goto out;
     }
+    if (g_tol_order && ettol > 0 && vnacal_new_set_et_tolerance(vnp, ettol) != 0) { o->rc = -6; goto out; }
     if (ptol > 0 && vnacal_new_set_p_tolerance(vnp, ptol) != 0) { o->rc = -6; goto out; }
-    if (ettol > 0 && vnacal_new_set_et_tolerance(vnp, ettol) != 0) { o->rc = -6; goto out; }
+    if (!g_tol_order && ettol > 0 && vnacal_new_set_et_tolerance(vnp, ettol) != 0) { o->rc = -6; goto out; }
     if (limit > 0 && vnacal_new_set_iteration_limit(vnp, limit) != 0) { o->rc = -6; goto out; }
     if (weight) {
 	double nf = 1e-5;
@@ -672,6 +674,49 @@ static void run(int tier, long idx, vf_result *r)
 	    }
 	}
     }
+    /*
+     * the two tolerances are separate settings ("both must be met"): one
+     * tight and one loose, each way round and in both orders of the two
+     * setter calls.  The order of the calls cannot matter; the tight one
+     * bounds its own quantity.
+     */
+    double et_split_aerr = -1;
+    for (int which = 0; which < 2 && !far && r->status == VF_OK; ++which) {
+	const double tight = 1e-10, loose = 1e-4;
+	outcome_t q[2];
+	for (int ord = 0; ord < 2; ++ord) {
+	    g_tol_order = ord;
+	    attempt(&sc, unk, nunk, which ? loose : tight,
+		    which ? tight : loose, 0, weight, &q[ord], r);
+	    g_tol_order = 0;
+	}
+	if (q[0].rc != q[1].rc || (q[0].rc == 0 &&
+		    (fabs(q[0].perr - q[1].perr) > 1e-13 ||
+		     fabs(q[0].aerr - q[1].aerr) > 1e-13))) {
+	    snprintf(sig, sizeof(sig), "setter-order:%s:%s", fname[fam],
+		    tname);
+	    vf_fail(r, sig, "p tolerance %g and et tolerance %g: setting "
+		    "the p tolerance first gives rc %d, parameter error "
+		    "%.3e, apply error %.3e; setting the et tolerance first "
+		    "gives rc %d, %.3e, %.3e", which ? loose : tight,
+		    which ? tight : loose, q[0].rc, q[0].perr, q[0].aerr,
+		    q[1].rc, q[1].perr, q[1].aerr);
+	    break;
+	}
+	if (q[0].rc != 0)
+	    continue;
+	if (which) {
+	    et_split_aerr = q[0].aerr;	/* judged last, see below */
+	    continue;
+	}
+	if (!(q[0].perr <= 100.0 * tight + 1e-9)) {
+	    snprintf(sig, sizeof(sig), "split-tolerance-p:%s:%s", fname[fam],
+		    tname);
+	    vf_fail(r, sig, "p tolerance %g with the et tolerance at %g: "
+		    "parameter error %.3e (bound %.1e)", tight, loose,
+		    q[0].perr, 100.0 * tight + 1e-9);
+	}
+    }
     /* iteration-limit ladder at tolerance 1e-8: must always return; a
        failure is -1/EDOM with one callback */
     int lim_fail = 0;
@@ -696,6 +741,18 @@ static void run(int tier, long idx, vf_result *r)
 			q.perr);
 	    }
 	}
+    }
+    /*
+     * last, so that nothing else of the case is masked by it: et tolerance
+     * 1e-10 with the p tolerance at 1e-4 ("both must be met") bounds the
+     * error terms, seen through the corrected DUT
+     */
+    if (r->status == VF_OK && et_split_aerr >= 0 &&
+	    !(et_split_aerr <= 100.0 * 1e-10 + 1e-9)) {
+	vf_fail(r, "et-tolerance-not-applied", "et tolerance 1e-10 with the "
+		"p tolerance at 1e-4 (%s %s): apply error %.3e (bound "
+		"%.1e)", fname[fam], tname, et_split_aerr,
+		100.0 * 1e-10 + 1e-9);
     }
     r->nontrivial = 1;
     vf_outcome(r, "%s %s %s %s tol-fails:%d limit-fails:%d", fname[fam],
